@@ -691,3 +691,29 @@ example : ∀ (d : Nat → ℝ) (x y : Nat → ℂ),
   intro d x y
   simp only [tInner, innerDefault, sumTo_eq_sum, ops_rK, ops_conj, map_mul, Complex.conj_ofReal]
   exact Finset.sum_congr rfl (fun i _ => by ring)
+
+/-! ### when the inner product exists -/
+
+/-- The driver answers `err:notimpl` (the code raises `NotImplementedError`) exactly when
+`Space.hasInner` is false; this is the case iff SOME exponent in the space tree is not 2 — at
+the top (`ProductSpace…Weighting.inner` / `NumpyTensorSpace…Weighting.inner` refuse) or in a
+component at any nesting depth (the component's `inner` raises while the product space sums
+the component inner products).  Hence the hypothesis `AllExpo (· = .two)` of
+`norm2_sq_eq_inner` and the domain of the inner-product theorems is exactly the set of spaces
+on which the code returns a value (stream branches `inner/notimpl/top`,
+`inner/notimpl/nested`). -/
+theorem C02.inner_defined_iff_all_exponents_two (s : Space ℝ) :
+    s.hasInner = true ↔ AllExpo (fun p => p = .two) s := by
+  induction s with
+  | tens n w p => simp only [Space.hasInner, AllExpo, Expo.isTwo_iff]
+  | discr u axes w p => simp only [Space.hasInner, AllExpo, Expo.isTwo_iff]
+  | prod m w p comp ih =>
+    simp only [Space.hasInner, AllExpo, Bool.and_eq_true, Expo.isTwo_iff, List.all_eq_true,
+      List.mem_range, ih]
+
+/-- a product space with exponent 2 whose nested component `ProductSpace(rn(2, exponent=1))`
+has a leaf of exponent 1: no inner product, although the two upper levels have exponent 2 -/
+example : (Space.prod 2 (.const 1) .two (fun k => if k = 0 then .tens 3 (.const 1) .two
+    else .prod 1 (.arr fun _ => 2) .two (fun _ => .tens 2 (.const 1) .one)) : Space ℝ).hasInner
+    = false := by
+  simp [Space.hasInner, Expo.isTwo, List.range, List.range.loop]
